@@ -71,6 +71,7 @@ type IterState struct {
 	comp string
 	mt   *types.Map
 	prev *Term
+	facts []*Term // enumeration axioms (kept across loop cut points)
 }
 
 type Path struct {
@@ -1055,7 +1056,9 @@ func (u *Unit) execRange(p *Path, x *ssa.Range) {
 	it.mv = frozen
 	for _, a := range u.enumAxioms(frozen, it.ks, it.idx, it.n) {
 		p.assume(a)
+		it.facts = append(it.facts, a)
 	}
+	it.facts = append(it.facts, App("finite_"+c.Elem, SBool, frozen))
 	p.iters[x] = it
 }
 
